@@ -19,7 +19,7 @@ THEOREMS = ["C19_reset_restores_invariant", "C19_frame_end_is_reset", "C19_reset
             "C19_getFrameInfo_error_unchanged", "C19_cctx_begin_after_any_history"]
 CORRESPONDENCE = ["FrameD model == LZ4F_decompress/_usingDict/getFrameInfo/reset on reused contexts: per call (consumed, produced, bytes, return value, private dctx fields)",
                   "FrameCtx.cbegin model == (lz4CtxAlloc, lz4CtxType, cStage) of the real LZ4F_cctx after every LZ4F_compressBegin"]
-RULE = ("histories on one LZ4F_dctx built from {complete frame, skippable frame, frame truncated at a random point + reset, corrupted frame "
+RULE = ("skipChecksums used on frame k then a checksum-only-damaged frame k+1 without the option (with/without reset between); histories on one LZ4F_dctx built from {complete frame, skippable frame, frame truncated at a random point + reset, corrupted frame "
         "(error) + reset, getFrameInfo use, frame with dictionary} followed by a probe frame under a random chunking/capacity policy, replayed on a "
         "fresh context; multi-frame buffers; getFrameInfo at every stage; histories on one LZ4F_cctx built from {finished session, unfinished session, "
         "session refused with dstMaxSize_tooSmall, compressEnd refused, uncompressed-block sessions} x levels {fast, HC} x block modes, followed by a "
@@ -36,6 +36,10 @@ def gen_cases(tier, seed):
     rng = random.Random(seed)
     n = {"quick": (60, 30, 30, 40), "search": (120, 50, 50, 80), "thorough": (1400, 500, 500, 1000)}[tier]
     cases = []
+    for _ in range({"quick": 14, "search": 40, "thorough": 200}[tier]):
+        cases.append({"kind": "skipleak", "bseed": rng.randrange(1 << 48)})
+    for _ in range({"quick": 10, "search": 30, "thorough": 150}[tier]):
+        cases.append({"kind": "infodict", "bseed": rng.randrange(1 << 48)})
     for kind, cnt in zip(["reuse", "multi", "info", "cctx"], n):
         for _ in range(cnt):
             cases.append({"kind": kind, "bseed": rng.randrange(1 << 48)})
@@ -477,9 +481,28 @@ def k_corpus(st, acc, rng, case):
             break
     cc.free()
 
+def k_skipleak(st, acc, rng, case):
+    """skipChecksums on frame k must not disable verification of frame k+1 (same dctx, with / without reset between)"""
+    for j in range(4):
+        ev, f = F.run_skipleak(st, rng)
+        acc.evals += ev
+        acc.stats["skipleak_runs"] += 1
+        if f:
+            acc.fail(f[0], f[1], f[2]); return
+    acc.keys.add("skipleak_%d" % case["bseed"])
+
+def k_infodict(st, acc, rng, case):
+    """header through LZ4F_getFrameInfo, the rest through LZ4F_decompress_usingDict (context in dstage_init)"""
+    for j in range(5):
+        ev, f = F.run_info_then_dict(st, rng)
+        acc.evals += ev; acc.stats["infodict_runs"] += 1
+        if f:
+            acc.fail(f[0], f[1], f[2]); return
+    acc.keys.add("infodict_%d" % case["bseed"])
+
 def run_case(st, case):
     rng = random.Random(case["bseed"])
     kind = case["kind"]
     acc = Acc(kind)
-    {"reuse": k_reuse, "multi": k_multi, "info": k_info, "cctx": k_cctx, "corpus": k_corpus}[kind](st, acc, rng, case)
+    {"reuse": k_reuse, "multi": k_multi, "info": k_info, "cctx": k_cctx, "corpus": k_corpus, "skipleak": k_skipleak, "infodict": k_infodict}[kind](st, acc, rng, case)
     return acc.results()
